@@ -272,6 +272,19 @@ def specStateItems (nets : List Nat) (U : List (String × Tuple)) (m : MS) : Lis
   sortStrs (nets.foldr (fun n acc =>
     U.foldr (fun u acc => List.replicate (m n u.2) (toString n ++ "@" ++ u.1) ++ acc) acc) [])
 
+/-- A count function tabulated on the universe (it is 0 elsewhere: the universe holds every relationship a
+    request of the line can insert).  The driver keeps the specification's state as such a table so that the
+    closures built by `specStep` do not pile up. -/
+abbrev Table := List (Nat × List (Tuple × Nat))
+
+def tabulate (nets : List Nat) (U : List (String × Tuple)) (m : MS) : Table :=
+  nets.map fun n => (n, U.filterMap fun u => let c := m n u.2; if c = 0 then none else some (u.2, c))
+
+def ofTable (tbl : Table) : MS := fun n t =>
+  match tbl.lookup n with
+  | some row => (row.lookup t).getD 0
+  | none => 0
+
 def specListItems (U : List (String × Tuple)) (f : Tuple → Nat) : List String :=
   sortStrs (U.foldr (fun u acc => List.replicate (f u.2) u.1 ++ acc) [])
 
@@ -291,7 +304,7 @@ def opCode : SOp → String
 structure St where
   db : DB
   mark : DB
-  m : MS
+  tbl : Table             -- the specification's state, tabulated
   i : Nat := 0
   cols : Array String := #[]
   specOK : Bool := true
@@ -314,7 +327,9 @@ def stepItem (L : Line) (fail : Oracle) (nets : List Nat) (U : List (String × T
     let ck : Chunking := {}
     let r := step ck L.cfg fail nid op st.db
     -- with a fault oracle the specification (which knows no faults) says: a failed request has no effect
-    let m' := if r.1.status == .internal then st.m else specStep L.cfg nid op st.m
+    let m0 := ofTable st.tbl
+    let tbl' := if r.1.status == .internal then st.tbl else tabulate nets U (specStep L.cfg nid op m0)
+    let m' := ofTable tbl'
     let i := toString st.i
     let mDig := digest v (sortStrs (r.2.rows.map rRow))
     let smDig := digest v (specStateItems nets U m')
@@ -338,7 +353,7 @@ def stepItem (L : Line) (fail : Oracle) (nets : List Nat) (U : List (String × T
     -- the specification's answer to a complete listing
     let (cols, okL) := match op with
       | .listAll q sz =>
-        match specListAll L.cfg nid q sz st.m with
+        match specListAll L.cfg nid q sz m0 with
         | none => (cols.push ("so" ++ i ++ "=rej"), r.1.pages.isNone)
         | some f =>
           let sd := digest v (specListItems U f)
@@ -351,7 +366,7 @@ def stepItem (L : Line) (fail : Oracle) (nets : List Nat) (U : List (String × T
     let nx : Token := match r.1.page with
       | some p => (match p.next with | some l => .at l | none => .empty)
       | none => .empty
-    { st with db := r.2, m := m', i := st.i + 1, cols := cols, specOK := st.specOK && okL && stateOK,
+    { st with db := r.2, tbl := tbl', i := st.i + 1, cols := cols, specOK := st.specOK && okL && stateOK,
               nexts := st.nexts.push nx }
 
 def handleStore (toks : List String) : String :=
@@ -363,7 +378,7 @@ def handleStore (toks : List String) : String :=
       | none => noFail
     let U := tupleUniverse L.items
     let nets := networks L.items
-    let st0 : St := { db := {}, mark := {}, m := MS.empty }
+    let st0 : St := { db := {}, mark := {}, tbl := [] }
     let st := (L.items.zip L.refs).foldl (stepItem L fail nets U) st0
     let cols := st.cols
       |>.push ("spec=" ++ (if st.specOK then "1" else "0"))
